@@ -81,11 +81,13 @@ def gen_name(rng):
 def gen_lines(rng, maxn=40):
     r = rng.random()
     n = 1 if r < 0.3 else rng.randint(1, 6) if r < 0.8 else rng.randint(7, maxn)
+    if r > 0.985:
+        n = rng.choice([99, 100, 101, 128, 255, 256, 257, 300])     # very many findings in one file (generated code)
     s = set()
     while len(s) < n:
         q = rng.random()
         if q < 0.75:
-            s.add(rng.randint(1, 400))
+            s.add(rng.randint(1, 400 if n < 90 else 4000))
         elif q < 0.95:
             s.add(rng.choice(BIG))
         else:
